@@ -104,6 +104,9 @@ def gen_cases(ctx, backend, T):
         for ty, n in [("u", 2**32 - 6), ("u", 2**32 - 1), ("i", 2**31 - 6), ("i", 2**31 - 1)]:
             if backend in ("omp",) and not ctx.thorough() and n != 2**32 - 6: continue
             cases.append(("B", dict(type=ty, n=n, B=1024), "%s %d 1024" % (ty, n)))
+    if (backend, T) == ("tbb", 16):
+        # parallel_foreach over more than INT_MAX elements of an untouched MAP_NORESERVE mapping (no memory is committed)
+        cases.append(("M", dict(distance=2**31 + 64), "%d" % (2**31 + 64)))
     if backend == "internal":
         # recorded task sets through the enkiTS API
         P = T * (T - 1) if T > 1 else 1
@@ -219,12 +222,32 @@ def explain_src_failure(ctx):
             return
 
 
+def foreach_search(ctx):
+    """Search on breakage: evaluate the regenerated parallel_foreach body in the machine reading (coq/C01/SrcSearch.v,
+    vm_compute) on boundary distances; returns the distances whose count differs from the distance."""
+    import shutil
+    d = os.path.join(ctx.build, "search")
+    os.makedirs(d, exist_ok=True)
+    shutil.copy(os.path.join(ctx.coqdir, "SrcSearch.v"), os.path.join(d, "SrcSearch.v"))
+    rc, out = vlib.sh(["coqc"] + vlib.coqproject_args(ctx.coqdir) + ["SrcSearch.v"], cwd=d, timeout=120)
+    m = re.search(r"=\s*\[([^\]]*)\]", out)
+    if rc != 0 or not m:
+        ctx.log("SrcSearch.v did not evaluate:\n" + out[-800:])
+        return []
+    return [int(x) for x in re.findall(r"-?\d+", m.group(1))]
+
+
 def run(ctx):
     handoff_findings(ctx)
     regenerate_src(ctx)
     res = ctx.coq_check(("Properties.v", "PropertiesSrc.v"))
+    ctx.foreach_suspects = []
     if not all(res.values()):
         explain_src_failure(ctx)
+        ctx.foreach_suspects = foreach_search(ctx)
+        if ctx.foreach_suspects:
+            ctx.log("model-side witnesses (regenerated parallel_foreach, machine reading): count != distance for %s" % ctx.foreach_suspects)
+            ctx.cov["foreach_model_witnesses"] = ctx.foreach_suspects
     model = ctx.extract(snippets=["conv_N.ml", "conv_Z.ml", "conv_nat.ml"])
     jobs = [dict(sources=["harness.cpp"], out="h_" + b, backend=b, sanitize="asan") for b in BACKENDS]
     exes = ctx.cxx_many(jobs)
@@ -345,6 +368,9 @@ def run(ctx):
                 req = oracle_E(spec["count"], spec["a"], spec["b"])
                 if spec["count"] >= 2:
                     ctx.nontriv(["E", b, T, spec])
+            elif c[0] == "M":
+                req = "cnt=%d ok" % spec["distance"]
+                ctx.nontriv(["M", b, T, spec])
             else:
                 pp = parse_pieces(obs)
                 ok = pp is not None and pp[1] == spec["n"] and oracle_T(pp[1], pp[0], pp[2])
@@ -361,7 +387,7 @@ def run(ctx):
                 sig = None
                 if c[0] == "F" and b == "internal" and (spec["n"] > INT_MAX or spec["n"] < -2**31):
                     sig = SIG_GT_INT_MAX
-                add_violation((b, c[0], "oracle", sig), abs(spec.get("n", spec.get("count", 0))) + T,
+                add_violation((b, c[0], "oracle", sig), abs(spec.get("n", spec.get("count", spec.get("distance", 0)))) + T,
                               "%s backend, initTaskingSystem(%d): %s %s: observed '%s', required '%s'" % (b, T, c[0], spec, obs[:300], req[:300]),
                               {"backend": b, "T": T, "kind": c[0], "case": spec, "harness_line": "%s x %s" % (c[0], c[2]),
                                "observed": obs[:2000], "required": req[:2000], "model": mline}, sig)
@@ -374,6 +400,20 @@ def run(ctx):
                 nmis += 1
                 ctx.broken.append("correspondence C01 model vs %s T=%d on %s %s: impl=%r model=%r (impl satisfies the property oracle)"
                                   % (b, T, c[0], spec, obs_cmp[:200], mline[:200]))
+    # witnesses found by evaluating the regenerated parallel_foreach: confirm on the real code (sparse mapping, TBB, 16 threads)
+    for dist in [x for x in getattr(ctx, "foreach_suspects", []) if 0 < x <= 2**33][:4]:
+        results, fatals, notrun = run_group(ctx, exe["tbb"], "tbb", 16, [("M", dict(distance=dist), "%d" % dist)], wd)
+        ctx.count(1)
+        obs = results.get(0) or (fatals[0][1] if fatals else "no output")
+        req = "cnt=%d ok" % dist
+        if obs != req:
+            add_violation(("foreach", "witness"), dist,
+                          "parallel_foreach over %d elements (witness computed from the regenerated source, confirmed on the real code, "
+                          "tbb backend): observed '%s', required '%s'" % (dist, obs[:200], req),
+                          {"backend": "tbb", "T": 16, "kind": "M", "case": {"distance": dist}, "harness_line": "M x %d" % dist,
+                           "observed": obs, "required": req, "model_witness": "count handed to parallel_for != distance in the machine reading of gen/Src.v"})
+        else:
+            ctx.log("witness distance %d not confirmed on the real code" % dist)
     # public-API reproduction of defect 25
     rc, out, err = ctx.run_exe(xexes[0], ["13", "5", "1", "14", "27", "300"], timeout=60)
     ctx.count(1)
@@ -414,7 +454,8 @@ def run(ctx):
     ctx.cov["mismatches_model_vs_impl"] = nmis
     ctx.cov["grid"] = {"n": "-2^31,-7,-1,0,1,2,T-1,T,T+1,255,256,257,4095,1e5,1e6 (clipped to the type)", "types": list(TYPES),
                        "T": Ts, "depth": [0, 1, 2], "cost": ["uniform", "uneven (slow first/last index, seeded spins)"],
-                       "block_sizes": BSIZES, "backends": BACKENDS}
+                       "block_sizes": BSIZES, "backends": BACKENDS,
+                       "foreach_sparse_distance": 2**31 + 64}
     ctx.rule = ("one evaluation = one loop execution (parallel_for at nesting depth 0-2 / parallel_in_blocks_of / parallel_foreach / a recorded "
                 "enkiTS task set) on one backend and thread count, judged by the property oracle; non-trivial = a parallel_for with n>=2 "
                 "whose indices were executed by >=2 distinct threads (measured from the per-index thread record), a block run with >=2 "
